@@ -336,7 +336,7 @@ theorem ctxTop_no_offer (inp : Input) (n : Nat) (hn : 0 < n) (k : Nat) (s : PSt)
   | grpc g =>
     obtain ⟨hk, _⟩ := hg
     simp [hk, Kind.ctxTop] at ht
-  | gen a r =>
+  | gen a r ps =>
     obtain ⟨hk, _⟩ := hg
     simp [hk, Kind.ctxTop] at ht
 
